@@ -664,9 +664,17 @@ static size_t soxr_output_1ch(soxr_t p, unsigned i, soxr_buf_t dest, size_t len,
     resampler_flush(p->resamplers[i]);
   resampler_process(p->resamplers[i], len);
   src = resampler_output(p->resamplers[i], NULL, &len);
-  if (separated)
-    p->clips += (p->interleave)(p->io_spec.otype, &dest, &src,
+  if (separated) {
+    /* May be running in one of the `omp parallel for' regions below, one
+     * thread per channel: count locally, then add to the shared counter in
+     * one indivisible step so that no channel's clips are lost. */
+    size_t clips = (p->interleave)(p->io_spec.otype, &dest, &src,
       len, 1, (p->io_spec.flags & SOXR_NO_DITHER)? 0 : &p->seed);
+#if defined _OPENMP
+#pragma omp atomic
+#endif
+    p->clips += clips;
+  }
   else p->channel_ptrs[i] = (void /* const */ *)src;
   return len;
 }
